@@ -70,7 +70,7 @@ def run(ctx):
     parts = [[] for _ in range(shards)]
     for (i, c) in calls:
         parts[c["key"] % shards].append((i, c))
-    out = ctx.run_impl("c06", [dict(id=k, calls=parts[k]) for k in range(shards)], nproc=shards, timeout_s=3000)
+    out = ctx.run_impl("c06", [dict(id=k, calls=parts[k]) for k in range(shards)], nproc=shards, timeout_s=3000 if ctx.quick else 9000, env=dict(VERIF_CASE_TIMEOUT=900 if ctx.quick else 3000))
     traces = []
     for k in range(shards):
         if out[k].get("st") in ("crashed", "timeout"):
